@@ -291,17 +291,57 @@ def rule_R4(chk, repo):
     c = calls[0]
     loop = [l for l in ast.walk(fi.node) if isinstance(l, ast.For) and any(x is c for x in ast.walk(l))]
     asg = [s for s in ast.walk(fi.node) if isinstance(s, ast.Assign) and s.value is c]
-    ok = False
-    if loop and asg and isinstance(loop[0].target, ast.Name):
-        i = loop[0].target.id
-        b = pmatch(f'__BR[{i}]', asg[0].targets[0])
-        if b is not None:
-            BR = b['__BR']
-            ok = [norm(a) for a in c.args] == [f'psi.A[{i} + 1]', f'psi.A[{i} + 1]', f'op.A[{i} + 1]', f'{BR}[{i} + 1]'] \
-                and norm(loop[0].iter) == 'reversed(range(L - 1))'
+    # index algebra instead of one spelling: with the loop variable v, target BR[t(v)], site s(v), source BR[b(v)] must
+    # satisfy s = t + 1 = b, and t must run over L-2, L-3, .., 0 in this order (negative indices count from the end of a
+    # list of length L)
+    from ..affine import Affine, try_affine
+    from ..sweep import index_affine
+    ok, detail = False, norm(c)[:100]
+    Ls = Affine.sym('L')
+    if loop and asg and isinstance(loop[0].target, ast.Name) and isinstance(asg[0].targets[0], ast.Subscript):
+        v = loop[0].target.id
+        BR = norm(asg[0].targets[0].value)
+
+        def idx(e):
+            try:
+                return index_affine(e, Ls, {})
+            except Exception:
+                return None
+        t = idx(asg[0].targets[0].slice)
+        sites = [idx(a.slice) if isinstance(a, ast.Subscript) and norm(a.value) in ('psi.A', 'op.A') else None for a in c.args[:3]]
+        src = idx(c.args[3].slice) if len(c.args) > 3 and isinstance(c.args[3], ast.Subscript) and norm(c.args[3].value) == BR else None
+        owners = [norm(a.value) if isinstance(a, ast.Subscript) else None for a in c.args[:3]]
+        it = loop[0].iter
+        seq = None                      # (first value, last value) of v, affine in L, step -1 / +1
+        if isinstance(it, ast.Call) and norm(it.func) == 'reversed' and len(it.args) == 1 and \
+                isinstance(it.args[0], ast.Call) and norm(it.args[0].func) == 'range':
+            ra = [try_affine(a) for a in it.args[0].args]
+            if all(a is not None for a in ra) and len(ra) in (1, 2):
+                lo_, hi_ = (Affine.const(0), ra[0]) if len(ra) == 1 else (ra[0], ra[1])
+                seq = (hi_ - Affine.const(1), lo_, -1)
+        elif isinstance(it, ast.Call) and norm(it.func) == 'range' and len(it.args) == 3 and norm(it.args[2]) == '-1':
+            ra = [try_affine(a) for a in it.args[:2]]
+            if all(a is not None for a in ra):
+                seq = (ra[0], ra[1] + Affine.const(1), -1)
+        if t is not None and all(x is not None for x in sites) and src is not None and seq is not None:
+            one = Affine.const(1)
+            t_first, t_last = t.subst(v, seq[0]), t.subst(v, seq[1])
+            ok = sites[0] == t + one and sites[1] == t + one and sites[2] == t + one and src == t + one and \
+                owners == ['psi.A', 'psi.A', 'op.A'] and t.coeff(v) == 1 and \
+                t_first == Ls - Affine.const(2) and t_last == Affine.const(0)
+            detail = f'target {BR}[{t}], sites {[str(x) for x in sites]}, source {BR}[{src}], {v} from {seq[0]} down to {seq[1]}'
     chk.ob(rid, where(repo, fi, c), 'compute_right_operator_blocks: BR[i] is built from site i+1 and BR[i+1], '
-           'for i = L-2 .. 0, ket and bra both psi', ok, norm(c)[:100], key=f'{rid}|right-blocks')
-    init = [s for s in fi.node.body if isinstance(s, ast.Assign) and pmatch('__BR[L - 1]', s.targets[0]) is not None]
+           'for i = L-2 .. 0, ket and bra both psi', ok, detail, key=f'{rid}|right-blocks')
+    init = []
+    for s_ in fi.node.body:
+        if isinstance(s_, ast.Assign) and isinstance(s_.targets[0], ast.Subscript) and \
+                isinstance(s_.targets[0].value, ast.Name):
+            try:
+                k_ = index_affine(s_.targets[0].slice, Ls, {})
+            except Exception:
+                k_ = None
+            if k_ is not None and k_ == Ls - Affine.const(1):
+                init.append(s_)
     ok2 = len(init) == 1 and pmatch('np.array([[[1]]], dtype=__t)', init[0].value) is not None
     chk.ob(rid, where(repo, fi, fi.node), 'compute_right_operator_blocks: rightmost block is the 1x1x1 identity', ok2,
            norm(init[0].value) if init else 'not found', key=f'{rid}|right-blocks-init')
